@@ -345,7 +345,10 @@ def check_case(case: dict):
                             return ("frames", [], {})
                         p_ = rc.frame_parse(outp[0])
                         body = p_.body[:-1]
-                        cut = body[:max(3, len(body) - 1 - how)]
+                        # (records are id(2) result(1) size(1) value(size): cut after the first record's size byte, inside its header, in
+                        # the second record's header, or one byte before the end)
+                        first = 6 + (body[5] if len(body) > 5 else 0)
+                        cut = body[:[6, 5, min(len(body) - 1, first + 4), len(body) - 1][how % 4]]
                         short = rc.frame_build(p_.frame_type, cut, proto=p_.proto)
                         m.response_hook_once = None
                         return ("raw", dev_.wrap(conn, short))
